@@ -43,16 +43,24 @@ def build_one(exe, rng, idx):
     sv = cfg.servers[0]["name"]
     nreq = rng.choice([30, 120, 300, 520])
     ids = {}
+    full_phase = nreq >= 300 and rng.random() < 0.7      # fill the table completely, then play around the full state
+    overflowed = 0
     for n in range(nreq):
         if h.s.dead:
             break
         k = rng.randrange(h.ncl)
         ident = ids.get(k, 0)
         ids[k] = (ident + 1) % 256
-        pkt = h.make_request(k, code=rng.choice([1, 1, 4]), user=b"u@x", ident=ident, extra=[], with_ma=True, pwd=False)
-        h.rq(k, pkt)
+        pkt = h.make_request(k, code=rng.choice([1, 1, 1, 4]), user=b"u@x", ident=ident, extra=[], with_ma=(False if rng.random() < 0.3 else None), pwd=False)
+        out = h.rq(k, pkt)
+        if " fwd:" not in out and out.startswith("ret=1"):
+            overflowed += 1
         r = rng.random()
+        filling = full_phase and len(h.outstanding) < 255 and overflowed == 0
+        if filling:
+            continue
         if r < 0.25 and h.outstanding:
+            # free a slot somewhere in the middle of the table: the cursor will stand right behind it after the next request
             ent = h.outstanding.pop(rng.randrange(len(h.outstanding)))
             # a reply is only accepted once the request was transmitted
             h.send("writer " + sv)
@@ -64,6 +72,14 @@ def build_one(exe, rng, idx):
             h.send("writer " + sv)
         elif r < 0.35:
             h.send("reset " + sv)
+        elif r < 0.4 and h.outstanding and full_phase:
+            # the client gives one of its requests up (same identifier, new authenticator): frees that slot too
+            ent = rng.choice(h.outstanding)
+            kk = ent[3]
+            h.outstanding.remove(ent)
+            h.rq(kk, h.make_request(kk, code=1, user=b"u@x", ident=ent[4][1], extra=[], pwd=False))
+    if overflowed:
+        h.tag("table-full")
     h.send("writer " + sv)
     return h.finish(kind="burst", nreq=nreq)
 
@@ -77,4 +93,4 @@ def gen(rng, tier):
 
 
 def nontrivial(c):
-    return c.tags.get("forwarded", 0) >= 20
+    return c.tags.get("forwarded", 0) >= 20 or bool(c.tags.get("table-full"))
